@@ -498,10 +498,13 @@ struct Args {
     known: String,
     file: Option<String>,
     run_index: u64,
-    debug_bin: Option<String>,
     cap_s: f64,
     out: Option<String>,
     seam_audit: Option<String>,
+    variant: String,
+    codec_only: bool,
+    /// other build configurations to run the same check under: (binary, variant name, histories)
+    also: Vec<(String, String, u64)>,
 }
 
 fn parse_args() -> Args {
@@ -519,10 +522,12 @@ fn parse_args() -> Args {
         known: "/verif/known_findings.json".into(),
         file: None,
         run_index: 0,
-        debug_bin: None,
         cap_s: std::env::var("VERIF_CAP_S").ok().and_then(|s| s.parse().ok()).unwrap_or(0.0),
         out: None,
         seam_audit: None,
+        variant: "main".into(),
+        codec_only: false,
+        also: Vec::new(),
     };
     let mut it = std::env::args().skip(1);
     a.cmd = it.next().unwrap_or_default();
@@ -549,10 +554,20 @@ fn parse_args() -> Args {
             "--replay-dir" => a.replay_dir = val(),
             "--known" => a.known = val(),
             "--run" => a.run_index = val().parse().unwrap_or(0),
-            "--debug-bin" => a.debug_bin = Some(val()),
             "--cap-s" => a.cap_s = val().parse().unwrap_or(0.0),
             "--out" => a.out = Some(val()),
             "--seam-audit" => a.seam_audit = Some(val()),
+            "--variant" => a.variant = val(),
+            "--codec-only" => a.codec_only = true,
+            "--also" => {
+                let v = val();
+                let p: Vec<&str> = v.splitn(3, ':').collect();
+                if p.len() != 3 {
+                    eprintln!("usage error: --also <binary>:<variant>:<histories>");
+                    std::process::exit(2);
+                }
+                a.also.push((p[0].to_string(), p[1].to_string(), p[2].parse().unwrap_or(10_000)));
+            }
             other if !other.starts_with("--") && a.file.is_none() => a.file = Some(other.to_string()),
             other => {
                 eprintln!("usage error: unknown argument {}", other);
@@ -568,9 +583,13 @@ fn digests_of(world: &World, seed: u64, runs: u64, workers: usize, tier: Tier) -
     run_batch(world, &|r| generate(world, seed, r), runs, workers, tier, &[], true, 1e9).digests
 }
 
-fn spawn_digests(bin: &str, seed: u64, runs: u64, workers: usize) -> Result<Vec<(u64, u64)>, String> {
+fn spawn_digests(bin: &str, seed: u64, runs: u64, workers: usize, codec_only: bool) -> Result<Vec<(u64, u64)>, String> {
+    let mut args: Vec<String> = ["digests", "--seed", &seed.to_string(), "--runs", &runs.to_string(), "--workers", &workers.to_string(), "--tier", "quick"].iter().map(|s| s.to_string()).collect();
+    if codec_only {
+        args.push("--codec-only".into());
+    }
     let out = std::process::Command::new(bin)
-        .args(["digests", "--seed", &seed.to_string(), "--runs", &runs.to_string(), "--workers", &workers.to_string(), "--tier", "quick"])
+        .args(&args)
         .output()
         .map_err(|e| format!("cannot run {}: {}", bin, e))?;
     if !out.status.success() {
@@ -618,6 +637,7 @@ fn main() {
             println!("{}", serde_json::to_string_pretty(&t.to_json(&name)).unwrap());
         }
         "digests" => {
+            exec::CODEC_ONLY.store(args.codec_only, std::sync::atomic::Ordering::Relaxed);
             for (r, d) in digests_of(&world, args.seed, args.runs.unwrap_or(1000), args.workers, args.tier) {
                 println!("{} {:016x}", r, d);
             }
@@ -644,7 +664,7 @@ fn cmd_run(world: &World, args: &Args) -> i32 {
     };
     let runs = args.runs.unwrap_or(default_runs);
     let cap = if args.cap_s > 0.0 { args.cap_s } else { default_cap };
-    println!("c10sim: property {} tier {} VERIF_SEED {} histories {} workers {} layouts {}", PROPERTY, tier_name, args.seed, runs, args.workers, world.table.len());
+    println!("c10sim[{}]: property {} tier {} VERIF_SEED {} histories {} workers {} layouts {} (substrate-fixed serde feature {})", args.variant, PROPERTY, tier_name, args.seed, runs, args.workers, world.table.len(), if simcore::serde_tok::SERDE_ON { "on" } else { "off" });
 
     // determinism self-test (in process): same seeds, 1 worker vs many, digests must agree
     let det_n = match args.tier {
@@ -655,34 +675,15 @@ fn cmd_run(world: &World, args: &Args) -> i32 {
     let dn = digests_of(world, args.seed, det_n, args.workers.max(2), Tier::Quick);
     let mut det_mismatch = d1.iter().zip(dn.iter()).filter(|(a, b)| a != b).count() + (d1.len() as i64 - dn.len() as i64).unsigned_abs() as usize;
     let mut det_compared = d1.len();
-    let mut cross_profile = json!(null);
     let mut fresh_process = json!(null);
     if args.tier == Tier::Thorough {
         if let Ok(me) = std::env::current_exe() {
-            match spawn_digests(me.to_str().unwrap_or(""), args.seed, det_n, 3) {
+            match spawn_digests(me.to_str().unwrap_or(""), args.seed, det_n, 3, false) {
                 Ok(d) => {
                     let mm = d1.iter().zip(d.iter()).filter(|(a, b)| a != b).count() + (d1.len() as i64 - d.len() as i64).unsigned_abs() as usize;
                     det_mismatch += mm;
                     det_compared += d.len();
                     fresh_process = json!({"digests_compared": d.len(), "mismatches": mm, "workers": 3});
-                }
-                Err(e) => {
-                    eprintln!("harness error: {}", e);
-                    return 2;
-                }
-            }
-        }
-        if let Some(dbg) = &args.debug_bin {
-            match spawn_digests(dbg, args.seed, det_n, args.workers) {
-                Ok(d) => {
-                    let mm = d1.iter().zip(d.iter()).filter(|(a, b)| a != b).count() + (d1.len() as i64 - d.len() as i64).unsigned_abs() as usize;
-                    cross_profile = json!({"binary": dbg, "profile": "dev (debug-assertions + overflow-checks on)", "digests_compared": d.len(), "mismatches": mm});
-                    if mm != 0 {
-                        // the event logs of the checking and the non-checking build differ: the simulated
-                        // calls do not behave the same under both profiles. Report, do not hide.
-                        eprintln!("harness error: {} run digests differ between the release and the dev build", mm);
-                        return 2;
-                    }
                 }
                 Err(e) => {
                     eprintln!("harness error: {}", e);
@@ -741,9 +742,13 @@ fn cmd_run(world: &World, args: &Args) -> i32 {
         violations = 1;
         let (mt, mf, mv, tries) = shrink::shrink(world, t, f, v);
         let _ = std::fs::create_dir_all(&args.replay_dir);
-        replay_path = format!("{}/{}-{}-{}.json", args.replay_dir, args.seed, run, mv.check);
+        replay_path = if args.variant == "main" {
+            format!("{}/{}-{}-{}.json", args.replay_dir, args.seed, run, mv.check)
+        } else {
+            format!("{}/{}-{}-{}-{}.json", args.replay_dir, args.seed, run, mv.check, args.variant)
+        };
         let info = json!({
-            "seed": args.seed, "run": run, "tier": tier_name,
+            "seed": args.seed, "run": run, "tier": tier_name, "variant": args.variant,
             "minimised": {"shrink_attempts": tries, "records_before": t.records.len(), "records_after": mt.records.len(),
                            "fault_before": f.to_json(), "fault_after": mf.to_json()},
             "original_detail": v.detail,
@@ -774,6 +779,62 @@ fn cmd_run(world: &World, args: &Args) -> i32 {
     for (what, n) in &st.known_hits {
         println!("KNOWN-FINDING: property={} {} (seen {} times)", PROPERTY, what, n);
     }
+
+    // the same check under the other build configurations of substrate-fixed (child processes, each
+    // deterministic in (seed, histories)). A child's violation is this check's violation; event-digest
+    // equality with this build is reported for information only (call granularity may legitimately differ).
+    let mut variants_json = vec![json!({"variant": args.variant, "binary": std::env::current_exe().ok().map(|p| p.display().to_string()), "role": "this process"})];
+    for (bin, name, n) in &args.also {
+        let evp = format!("{}.{}.json", args.evidence.clone().unwrap_or_else(|| "/verif/evidence/C10.json".into()).trim_end_matches(".json"), name);
+        let out = std::process::Command::new(bin)
+            .args(["run", "--tier", "quick", "--seed", &args.seed.to_string(), "--runs", &n.to_string(), "--workers", &args.workers.to_string(), "--variant", name, "--evidence", &evp, "--replay-dir", &args.replay_dir, "--known", &args.known])
+            .output();
+        let out = match out {
+            Ok(o) => o,
+            Err(e) => {
+                eprintln!("harness error: cannot run {} ({}): {}", bin, name, e);
+                return 2;
+            }
+        };
+        let so = String::from_utf8_lossy(&out.stdout).to_string();
+        let child_ev: Value = std::fs::read_to_string(&evp).ok().and_then(|t| serde_json::from_str(&t).ok()).unwrap_or(Value::Null);
+        let _ = std::fs::remove_file(&evp);
+        // informational digest comparison on a small prefix of the same histories
+        let cmp_n = 500.min(*n);
+        let codec_only = name == "minimal";
+        exec::CODEC_ONLY.store(codec_only, std::sync::atomic::Ordering::Relaxed);
+        let mine = digests_of(world, args.seed, cmp_n, args.workers, Tier::Quick);
+        exec::CODEC_ONLY.store(false, std::sync::atomic::Ordering::Relaxed);
+        let theirs = spawn_digests(bin, args.seed, cmp_n, args.workers, codec_only).unwrap_or_default();
+        let differ = mine.iter().zip(theirs.iter()).filter(|(a, b)| a != b).count() + (mine.len() as i64 - theirs.len() as i64).unsigned_abs() as usize;
+        variants_json.push(json!({
+            "variant": name, "binary": bin, "exit": out.status.code(),
+            "histories": child_ev.pointer("/coverage/histories"), "executions": child_ev.pointer("/coverage/evaluations"),
+            "violations": child_ev.get("violations"),
+            "event_digests_compared_with_this_build": mine.len(), "event_digests_differing": differ,
+        }));
+        match out.status.code() {
+            Some(0) => println!("c10sim: variant {} ({} histories) held", name, n),
+            Some(1) => {
+                for l in so.lines().filter(|l| l.starts_with("violation in run") || l.starts_with("VIOLATION") || l.starts_with("KNOWN-FINDING")) {
+                    println!("[variant {}] {}", name, l);
+                }
+                if let Some(l) = so.lines().find(|l| l.starts_with("VIOLATION")) {
+                    println!("{}", l);
+                    if replay_path.is_empty() {
+                        replay_path = l.rsplit("replay=").next().unwrap_or("").to_string();
+                    }
+                }
+                violations += 1;
+                exit = 1;
+            }
+            other => {
+                eprintln!("harness error: variant {} exited with {:?}: {}", name, other, String::from_utf8_lossy(&out.stderr));
+                return 2;
+            }
+        }
+    }
+    let variants_json = Value::Array(variants_json);
 
     // evidence
     let distinct_histories = st.distinct.len() as u64;
@@ -848,7 +909,7 @@ fn cmd_run(world: &World, args: &Args) -> i32 {
                 "family_x_faultkind_x_byte_offset_in_bare_record": {"reached": count_bits(&st.cell_fault), "total": valid_fault_cells()},
             },
             "determinism": {"run_digests_compared": det_compared, "mismatches": det_mismatch, "worker_counts": [1, args.workers.max(2)], "fresh_process": fresh_process},
-            "cross_profile": cross_profile,
+            "build_configurations": variants_json,
             "components": {
                 "real_code": ["substrate-fixed derived Encode/Decode/MaxEncodedLen/TypeInfo for FixedI8..FixedU128 (incl. derive-generated decode_into)", "substrate-fixed from_bits/to_bits/{from,to}_{le,be,ne}_bytes (inherent and Fixed-trait)", "substrate-fixed Wrapping::{from_bits,to_bits}", "substrate-fixed serde Serialize/Deserialize impls (Fixed*, Wrapping)", "parity-scale-codec 3.7.5 integer/array/Vec/Option/tuple/Box codecs, Compact<u32> length prefix, EncodeAppend, DecodeLength, DecodeAll, DecodeLimit, Joiner, KeyedVec, IoReader", "std::io::Read::read_exact", "scale-info registry", "serde_json, serde_cbor"],
                 "stubs_owned_by_the_simulator": ["SimOutput (codec::Output)", "SimInput (codec::Input)", "SimRead (std::io::Read under IoReader)", "TokSer / TokDe (serde Serializer / Deserializer, SeqAccess, MapAccess)", "the medium (a byte vector)", "reference model: bits >> 8i little-endian bytes + shape framing", "metadata-driven foreign decoder", "hand-written LE reader"],
